@@ -213,8 +213,3 @@ Section Loop.
     fs2 <- fold_left (do_shape plan) shapes (Some fs1) ;;
     Some (fold_left do_cat cats fs2).
 End Loop.
-
-(* what the two final files must look like: row i of both comes from the same tree *)
-Definition rows_of (sh : shape_out) (m : Z) (plist_of : Z -> list string) (s : wsrc)
-  : list (list string * list string) :=
-  map (fun t => (t, plist_of m)) (pick s sh).
